@@ -380,8 +380,18 @@ func c07ConcRun(x *vmc.X, cfg vmc.Cfg) {
 		run("close", func(e *ev) { e.err = pm.Close(); store.Fence(); closeRet = tick() })
 	}
 	_ = log
+	sawClose := false
 	for steps := 0; steps < 300; steps++ {
 		synctest.Wait()
+		if !sawClose && sched.Done("close") {
+			sawClose = true
+			// C14: when Close returns, nothing the manager started (its GC loop) is still running
+			if left := sched.ParkedOthers(); len(left) > 0 {
+				x.Failf("C14/providers/close-returned-early", "%s: Close returned while the manager's own goroutine is still inside %v", c.scenario, left)
+				sched.Finish()
+				return
+			}
+		}
 		if len(sched.Parked()) == 0 {
 			break
 		}
